@@ -9,6 +9,7 @@ import Dicom.Model.CmdSet
 import Dicom.Spec.CmdSetGrammar
 import Dicom.Spec.CommandFields
 import Dicom.Spec.PduGrammar
+import Dicom.Model.Provider
 /-! Line-protocol driver: one op per input line, one output line per op.
 Imports models and specifications only (never Generated or Props), core Lean only. -/
 open Dicom
@@ -116,6 +117,48 @@ def parseMsgOp (s : String) : Option MsgOp :=
 def cmdViewText (v : Spec.CmdView) : String :=
   s!"ok gl={v.groupLength} follow={v.following} asc={v.ascending} g0={v.allGroup0} cf={v.commandField.getD 99999} ds={v.dataSetType.getD 99999}"
 
+/-! ### C05 / C12 / C13: provider model -/
+open Dicom.Prov in
+def parseRx : String → Option Rx
+  | "rq" => some .rq | "ac" => some .ac | "rj" => some .rj | "pdataDone" => some .pdataDone
+  | "pdataMore" => some .pdataMore | "pdataErr" => some .pdataErr | "rlrq" => some .rlrq
+  | "rlrp" => some .rlrp | "abort" => some .abort | "invalid" => some .invalid | _ => none
+
+open Dicom.Prov in
+def parseTx (s : String) : Option Tx :=
+  match s.splitOn "*" with
+  | ["rq"] => some .rq | ["ac"] => some .ac | ["rj"] => some .rj | ["rlrq"] => some .rlrq
+  | ["rlrp"] => some .rlrp | ["abort"] => some .abort
+  | ["msg", n] => n.toNat?.map .msg
+  | _ => none
+
+open Dicom.Prov in
+/-- tick text: `n=idle|eof|d.rq+d.pdataDone ; u=ac+msg*2 ; t=<dt> ; f=0|1`, fields separated by `,` -/
+def parseTick (s : String) : Option Tick :=
+  (s.splitOn ",").foldlM (fun (t : Tick) (kv : String) =>
+    match kv.splitOn "=" with
+    | ["n", "idle"] => some { t with net := .idle }
+    | ["n", "eof"] => some { t with net := .eof }
+    | ["n", v] => ((v.splitOn "+").mapM parseRx).map fun l => { t with net := .data l }
+    | ["u", v] => if v = "" then some t else ((v.splitOn "+").mapM parseTx).map fun l => { t with enq := l }
+    | ["t", v] => v.toNat?.map fun d => { t with dt := d }
+    | ["f", v] => some { t with sendFails := v = "1" }
+    | _ => none) {}
+
+open Dicom.Prov in
+def outText : Out → String
+  | .send k => s!"send.{k.name}" | .sendAbort n => s!"sendAbort.{n}" | .ind k => s!"ind.{k.name}"
+  | .indAbort n => s!"indAbort.{n}" | .indDimse => "indDimse" | .close => "close" | .connect => "connect"
+  | .tStart => "tStart" | .tStop => "tStop" | .tRestart => "tRestart" | .crash => "crash"
+
+open Dicom.Prov in
+def provTrace : P → List Tick → List String
+  | _, [] => []
+  | p, t :: ts =>
+    let r := iter p t
+    s!"st={r.1.st.toNat} sock={r.1.sock} tmr={r.1.timer} crashed={r.1.crashed} out={",".intercalate (r.2.map outText)}"
+      :: provTrace r.1 ts
+
 def step (line : String) : String :=
   match line.trimAscii.toString.splitOn " " with
   | ["ping"] => "pong"
@@ -173,6 +216,10 @@ def step (line : String) : String :=
     | some bs => match Spec.parsePdu bs with
       | some p => (Spec.unpadTitles p).canon
       | none => "reject"
+    | none => "bad-op"
+  | ["prov", role, ticks] =>
+    match (ticks.splitOn ";").mapM parseTick with
+    | some ts => " | ".intercalate (provTrace (if role = "acc" then Prov.initAcc else Prov.initReq) ts)
     | none => "bad-op"
   | ["cf-of", name] =>
     match Spec.commandFieldTable.find? (fun e => e.2 = name) with
